@@ -5,7 +5,7 @@ from . import l2, l3, l6, prim
 
 
 def run(run, tier):
-    prim.run_group(run, E1Runner(run), prim.PREFIX_HARNESSES)
+    prim.run_group(run, E1Runner(run), prim.PREFIX_HARNESSES + prim.SKIP_PREFIX_HARNESSES)
     hs = l6.harnesses(tier, run.seed)
     # schemaless prefixes at token level (the byte-level prefixes of each primitive are the E1 obligations above)
     cuts = [h for h in l3.harnesses(tier, run.seed) if h.name.startswith("l2.cut.")]
